@@ -58,7 +58,10 @@ def build_cut(sanitize=False):
 
 
 def _build_cut(sanitize=False):
-    key = tree_hash() + ("-san" if sanitize else "")
+    cov = bool(os.environ.get("VERIF_COVERAGE"))     # development aid (tools/coverage.sh): gcov-instrumented build,
+    if cov:
+        sanitize = False                             # also where the check asks for the sanitised one (so that those runs count)
+    key = tree_hash() + ("-san" if sanitize else "") + ("-cov" if cov else "")
     out = os.path.join(WORK, "cut", key)
     stamp = os.path.join(out, "ok")
     if os.path.exists(stamp):
@@ -74,6 +77,8 @@ def _build_cut(sanitize=False):
     flags = f"-std=c++11 -O1 -g -D{GUARD} -I{REPO}/include -w"
     if sanitize:
         flags += " -fsanitize=address,undefined -fno-sanitize-recover=all -fno-omit-frame-pointer"
+    if cov:
+        flags = flags.replace("-O1", "-O0") + " --coverage"
     jobs = []
     for f in SRC_FILES:
         jobs.append((f"g++ {flags} -c {REPO}/src/{f}.cpp -o {out}/{f}.o",))
@@ -85,7 +90,7 @@ def _build_cut(sanitize=False):
         if rc != 0:
             raise RuntimeError(f"build of code under test failed: {cmd}\n{err}")
     objs = " ".join(f"{out}/{f}.o" for f in SRC_FILES)
-    san = "-fsanitize=address,undefined" if sanitize else ""
+    san = "-fsanitize=address,undefined" if sanitize else ("--coverage" if cov else "")
     for cmd in (f"ar rcs {out}/libpatch.a {objs}",
                 f"g++ {san} {out}/main.o {out}/libpatch.a -o {out}/sb_patch",
                 f"g++ {san} {out}/inproc.o {out}/libpatch.a -o {out}/inproc"):
